@@ -7,6 +7,11 @@
 #include <gmssl/sm9_z256.h>
 #include <gmssl/mem.h>
 #include <gmssl/pem.h>
+#include <gmssl/oid.h>
+
+/* defined non-static in src/sm9_z256.c but not (or differently: sm9_z256_prime) declared in the header */
+int sm9_z256_get_booth(const uint64_t a[4], uint64_t window_size, int i);
+const uint64_t *sm9_256_prime(void);
 
 static const uint8_t P_BYTES[32] = {0xb6,0x40,0x00,0x00,0x02,0xa3,0xa6,0xf1,0xd6,0x03,0xab,0x4f,0xf5,0x8e,0xc7,0x45,
 	0x21,0xf2,0x93,0x4b,0x1a,0x7a,0xee,0xdb,0xe5,0x6f,0x9b,0x27,0xe3,0x51,0x45,0x7d};
@@ -59,6 +64,9 @@ static void do_fp(size_t nw, char **w) {
 		else if (!strcmp(op, "tri")) sm9_z256_modp_tri(r, a);
 		else if (!strcmp(op, "haf")) sm9_z256_modp_haf(r, a);
 		else if (!strcmp(op, "montinv")) sm9_z256_modp_mont_inv(r, a);
+		else if (!strcmp(op, "tomont")) sm9_z256_modp_to_mont(r, a);
+		else if (!strcmp(op, "frommont")) sm9_z256_modp_from_mont(r, a);
+		else if (!strcmp(op, "montsqr")) sm9_z256_modp_mont_sqr(r, a);
 		else { printf("ERR bad-op"); return; }
 	} else {
 		if (!strcmp(op, "add")) sm9_z256_modp_add(r, a, b);
@@ -82,6 +90,7 @@ static void do_fp2(size_t nw, char **w) {
 		else if (!strcmp(op, "inv")) sm9_z256_fp2_inv(r, a);
 		else if (!strcmp(op, "amulu")) sm9_z256_fp2_a_mul_u(r, a);
 		else if (!strcmp(op, "conj")) sm9_z256_fp2_conjugate(r, a);
+		else if (!strcmp(op, "frob")) sm9_z256_fp2_frobenius(r, a);
 		else { printf("ERR bad-op"); return; }
 	} else if (!strcmp(op, "mulfp")) {
 		if (!get_fp(w[3], k)) { printf("ERR"); return; }
@@ -761,6 +770,126 @@ static void do_keypem(size_t nw, char **w) {
 	fclose(fp); put_key_result(kind, r, &k); free(b.p);
 }
 
+/* ---- Jacobian formulas on raw coordinates: jm g1|g2 <op> coords... -> "X Y Z" | 0|1 */
+static int get_j1(char **w, SM9_Z256_POINT *P) { return get_fp(w[0], P->X) && get_fp(w[1], P->Y) && get_fp(w[2], P->Z); }
+static void put_j1(const SM9_Z256_POINT *P) {
+	sm9_z256_t t; sm9_z256_modp_from_mont(t, P->X); put_z(t); printf(" "); sm9_z256_modp_from_mont(t, P->Y); put_z(t); printf(" "); sm9_z256_modp_from_mont(t, P->Z); put_z(t);
+}
+static int get_j2(char **w, SM9_Z256_TWIST_POINT *P) { return get_fp2(w[0], P->X) && get_fp2(w[1], P->Y) && get_fp2(w[2], P->Z); }
+static void put_j2(const SM9_Z256_TWIST_POINT *P) { put_fp2(P->X); printf(" "); put_fp2(P->Y); printf(" "); put_fp2(P->Z); }
+static void do_jm(size_t nw, char **w) {
+	const char *op = w[2];
+	if (!strcmp(w[1], "g1")) {
+		SM9_Z256_POINT P, Q, R; sm9_z256_t k;
+		if (!strcmp(op, "dbl") && nw == 6) { if (!get_j1(w + 3, &P)) { printf("ERR"); return; } sm9_z256_point_dbl(&R, &P); put_j1(&R); }
+		else if (!strcmp(op, "neg") && nw == 6) { if (!get_j1(w + 3, &P)) { printf("ERR"); return; } sm9_z256_point_neg(&R, &P); put_j1(&R); }
+		else if ((!strcmp(op, "add") || !strcmp(op, "sub")) && nw == 9) { if (!get_j1(w + 3, &P) || !get_j1(w + 6, &Q)) { printf("ERR"); return; }
+			if (op[0] == 'a') sm9_z256_point_add(&R, &P, &Q); else sm9_z256_point_sub(&R, &P, &Q); put_j1(&R); }
+		else if (!strcmp(op, "addaff") && nw == 8) { SM9_Z256_AFFINE_POINT A;
+			if (!get_j1(w + 3, &P) || !get_fp(w[6], A.X) || !get_fp(w[7], A.Y)) { printf("ERR"); return; } sm9_z256_point_add_affine(&R, &P, &A); put_j1(&R); }
+		else if (!strcmp(op, "mul") && nw == 7) { if (!get_z(w[3], k) || !get_j1(w + 4, &P)) { printf("ERR"); return; } sm9_z256_point_mul(&R, k, &P); put_j1(&R); }
+		else if (!strcmp(op, "oncurve") && nw == 6) { if (!get_j1(w + 3, &P)) { printf("ERR"); return; } printf("%d", sm9_z256_point_is_on_curve(&P) != 0); }
+		else if (!strcmp(op, "equ") && nw == 9) { if (!get_j1(w + 3, &P) || !get_j1(w + 6, &Q)) { printf("ERR"); return; } printf("%d", sm9_z256_point_equ(&P, &Q) != 0); }
+		else printf("ERR bad-op");
+	} else {
+		SM9_Z256_TWIST_POINT P, Q, R; sm9_z256_t k;
+		if (!strcmp(op, "dbl") && nw == 6) { if (!get_j2(w + 3, &P)) { printf("ERR"); return; } sm9_z256_twist_point_dbl(&R, &P); put_j2(&R); }
+		else if (!strcmp(op, "neg") && nw == 6) { if (!get_j2(w + 3, &P)) { printf("ERR"); return; } sm9_z256_twist_point_neg(&R, &P); put_j2(&R); }
+		else if ((!strcmp(op, "add") || !strcmp(op, "addfull") || !strcmp(op, "sub")) && nw == 9) { if (!get_j2(w + 3, &P) || !get_j2(w + 6, &Q)) { printf("ERR"); return; }
+			if (!strcmp(op, "add")) sm9_z256_twist_point_add(&R, &P, &Q); else if (op[0] == 'a') sm9_z256_twist_point_add_full(&R, &P, &Q); else sm9_z256_twist_point_sub(&R, &P, &Q);
+			put_j2(&R); }
+		else if (!strcmp(op, "mul") && nw == 7) { if (!get_z(w[3], k) || !get_j2(w + 4, &P)) { printf("ERR"); return; } sm9_z256_twist_point_mul(&R, k, &P); put_j2(&R); }
+		else if (!strcmp(op, "oncurve") && nw == 6) { if (!get_j2(w + 3, &P)) { printf("ERR"); return; } printf("%d", sm9_z256_twist_point_is_on_curve(&P) != 0); }
+		else printf("ERR bad-op");
+	}
+}
+/* ---- 256-bit integer helpers: z256 <op> a [b] */
+static void do_z256(size_t nw, char **w) {
+	sm9_z256_t a, b, r; const char *op = w[1];
+	if (!get_z(w[2], a) || (nw >= 4 && strcmp(op, "booth") && strcmp(op, "cmov") && !get_z(w[3], b))) { printf("ERR"); return; }
+	if (!strcmp(op, "add") && nw == 4) { uint64_t c = sm9_z256_add(r, a, b); printf("%d ", (int)c); put_z(r); }
+	else if (!strcmp(op, "sub") && nw == 4) { uint64_t c = sm9_z256_sub(r, a, b); printf("%d ", (int)c); put_z(r); }
+	else if (!strcmp(op, "mul") && nw == 4) { uint64_t m[8]; uint8_t *o = malloc(64); int i; sm9_z256_mul(m, a, b);
+		for (i = 0; i < 8; i++) { int j; for (j = 0; j < 8; j++) o[8 * i + j] = (uint8_t)(m[7 - i] >> (56 - 8 * j)); } puthex(o, 64); free(o); }
+	else if (!strcmp(op, "cmp") && nw == 4) printf("%d", sm9_z256_cmp(a, b));
+	else if (!strcmp(op, "equ") && nw == 4) printf("%d", (int)sm9_z256_equ(a, b));
+	else if (!strcmp(op, "iszero") && nw == 3) printf("%d", (int)sm9_z256_is_zero(a));
+	else if (!strcmp(op, "booth") && nw == 5) printf("%d", sm9_z256_get_booth(a, (uint64_t)atoi(w[3]), atoi(w[4])));
+	else if (!strcmp(op, "bits") && nw == 3) { char *bits = malloc(256); uint8_t *o = malloc(32); int i; sm9_z256_to_bits(a, bits); memset(o, 0, 32);
+		for (i = 0; i < 256; i++) { if (bits[i] == '1') o[i / 8] |= (uint8_t)(0x80 >> (i % 8)); else if (bits[i] != '0') { printf("BADCHAR"); } } puthex(o, 32); free(bits); free(o); }
+	else if (!strcmp(op, "cmov") && nw == 5) { if (!get_z(w[3], b)) { printf("ERR"); return; } sm9_z256_copy(r, a); sm9_z256_copy_conditional(r, b, (uint64_t)atoi(w[4])); put_z(r); }
+	else if (!strcmp(op, "hex") && nw == 3) { /* to_hex then from_hex and equ_hex */
+		char *hx = malloc(65); sm9_z256_t c; int r1, r2; sm9_z256_to_hex(a, hx); hx[64] = 0; r1 = sm9_z256_from_hex(c, hx); r2 = sm9_z256_equ_hex(a, hx);
+		printf("%s %d %d ", hx, r1, r2); put_z(c); free(hx); }
+	else printf("ERR bad-op");
+}
+/* ---- hex forms of tower elements and points: hexrt <lvl> <bytes hex>: from_bytes -> to_hex -> from_hex -> to_bytes */
+static void do_hexrt(size_t nw, char **w) {
+	const char *lv = w[1]; (void)nw;
+	if (!strcmp(lv, "fp2")) { sm9_z256_fp2_t a, b; char *h = malloc(130); if (!get_fp2(w[2], a)) { printf("ERR"); free(h); return; }
+		sm9_z256_fp2_to_hex(a, h); h[129] = 0; if (sm9_z256_fp2_from_hex(b, h) != 1) printf("ERR fromhex"); else put_fp2(b); free(h); }
+	else if (!strcmp(lv, "fp4")) { sm9_z256_fp4_t a, b; char *h = malloc(260); if (!get_fp4(w[2], a)) { printf("ERR"); free(h); return; }
+		sm9_z256_fp4_to_hex(a, h); h[259] = 0; if (sm9_z256_fp4_from_hex(b, h) != 1) printf("ERR fromhex"); else put_fp4(b); free(h); }
+	else if (!strcmp(lv, "fp12")) { sm9_z256_fp12_t a, b; char *h = malloc(780); if (!get_fp12(w[2], a)) { printf("ERR"); free(h); return; }
+		sm9_z256_fp12_to_hex(a, h); h[779] = 0; if (sm9_z256_fp12_from_hex(b, h) != 1) printf("ERR fromhex"); else put_fp12(b); free(h); }
+	else if (!strcmp(lv, "g1")) { SM9_Z256_POINT P; char *h = malloc(130); if (strlen(w[2]) != 128) { printf("ERR"); free(h); return; }
+		memcpy(h, w[2], 64); h[64] = '\n'; memcpy(h + 65, w[2] + 64, 64); h[129] = 0;
+		if (sm9_z256_point_from_hex(&P, h) != 1) printf("ERR"); else { printf("%d ", sm9_z256_point_is_on_curve(&P) != 0); put_j1(&P); } free(h); }
+	else if (!strcmp(lv, "g2")) { SM9_Z256_TWIST_POINT P; char *h = malloc(260); int i; if (strlen(w[2]) != 256) { printf("ERR"); free(h); return; }
+		for (i = 0; i < 4; i++) { memcpy(h + 65 * i, w[2] + 64 * i, 64); h[65 * i + 64] = '\n'; } h[259] = 0;
+		sm9_z256_twist_point_from_hex(&P, h); printf("%d ", sm9_z256_twist_point_is_on_curve(&P) != 0); put_j2(&P); free(h); }
+	else printf("ERR bad-op");
+}
+/* ---- entropy consumers: rnd <what> <entropy> */
+static void do_rnd(size_t nw, char **w) {
+	const char *what = w[1]; int r; (void)nw;
+	script(w[2]);
+	if (!strcmp(what, "range")) { sm9_z256_t x, n; if (!get_z(w[3], n)) { printf("ERR"); return; } r = sm9_z256_rand_range(x, n); printf("%d %ld", r, ent.draws); if (r == 1) { printf(" "); put_z(x); } }
+	else if (!strcmp(what, "rangefail")) { sm9_z256_t x, n; if (!get_z(w[3], n)) { printf("ERR"); return; } ent.fail_at = atoi(w[4]); r = sm9_z256_rand_range(x, n); printf("%d %ld", r, ent.draws); }
+	else if (!strcmp(what, "fp2")) { sm9_z256_fp2_t a; r = sm9_z256_fp2_rand(a); printf("%d %ld", r, ent.draws); if (r == 1) { printf(" "); put_z(a[0]); put_z(a[1]); } }
+	else if (!strcmp(what, "fp4")) { sm9_z256_fp4_t a; r = sm9_z256_fp4_rand(a); printf("%d %ld", r, ent.draws); if (r == 1) { printf(" "); put_z(a[0][0]); put_z(a[0][1]); put_z(a[1][0]); put_z(a[1][1]); } }
+	else if (!strcmp(what, "fp12")) { sm9_z256_fp12_t a; int i, j; r = sm9_z256_fp12_rand(a); printf("%d %ld", r, ent.draws); if (r == 1) printf(" "); if (r == 1) for (i = 0; i < 3; i++) for (j = 0; j < 2; j++) { put_z(a[i][j][0]); put_z(a[i][j][1]); } }
+	else if (!strcmp(what, "smsk")) { SM9_SIGN_MASTER_KEY k; r = sm9_sign_master_key_generate(&k); printf("%d %ld", r, ent.draws); if (r == 1) { printf(" "); put_z(k.ks); printf(" "); put_g2(&k.Ppubs); } }
+	else if (!strcmp(what, "emsk")) { SM9_ENC_MASTER_KEY k; r = sm9_enc_master_key_generate(&k); printf("%d %ld", r, ent.draws); if (r == 1) { printf(" "); put_z(k.ke); printf(" "); put_g1(&k.Ppube); } }
+	else printf("ERR bad-op");
+}
+/* extract <s|e> <k> <id>: the identity key point (ds on G1 / de on G2), or ERR when t1 = 0 */
+static void do_extract(size_t nw, char **w) {
+	sm9_z256_t k; buf_t id; if (nw != 4 || !get_z(w[2], k)) { printf("ERR"); return; }
+	id = hex2buf(w[3]);
+	if (w[1][0] == 's') { SM9_SIGN_MASTER_KEY ms; SM9_SIGN_KEY sk; sm9_z256_copy(ms.ks, k); sm9_z256_twist_point_mul_generator(&ms.Ppubs, k);
+		if (sm9_sign_master_key_extract_key(&ms, (char *)id.p, id.n, &sk) != 1) printf("ERR"); else put_g1(&sk.ds); }
+	else if (w[1][0] == 'e') { SM9_ENC_MASTER_KEY me; SM9_ENC_KEY ek; sm9_z256_copy(me.ke, k); sm9_z256_point_mul(&me.Ppube, k, sm9_z256_generator());
+		if (sm9_enc_master_key_extract_key(&me, (char *)id.p, id.n, &ek) != 1) printf("ERR"); else put_g2(&ek.de); }
+	else { SM9_EXCH_MASTER_KEY me; SM9_EXCH_KEY ek; sm9_z256_copy(me.ke, k); sm9_z256_point_mul(&me.Ppube, k, sm9_z256_generator());
+		if (sm9_exch_master_key_extract_key(&me, (char *)id.p, id.n, &ek) != 1) printf("ERR"); else put_g2(&ek.de); }
+	free(id.p);
+}
+
+/* prn <what> <k> <id> [<der hex>]: the printers write the public fields (upper-case hex of the first point octets must appear) */
+static void do_prn(size_t nw, char **w) {
+	FILE *fp = tmpfile(); char *txt; long n; int r = -9; anykey_t k; sm9_z256_t s; buf_t id; const char *what = w[1];
+	if (!fp || nw < 4 || !get_z(w[2], s)) { printf("ERR"); if (fp) fclose(fp); return; }
+	id = hex2buf(w[3]);
+	if (!strcmp(what, "sig") || !strcmp(what, "ct")) { buf_t d = hex2buf(w[4]);
+		r = what[0] == 's' ? sm9_signature_print(fp, 0, 0, "LBL", d.p, d.n) : sm9_ciphertext_print(fp, 0, 0, "LBL", d.p, d.n); free(d.p); }
+	else if (!strcmp(what, "z")) r = sm9_z256_print(fp, 0, 0, "LBL", s);
+	else if (!strcmp(what, "g1")) { SM9_Z256_POINT P; sm9_z256_point_mul(&P, s, sm9_z256_generator()); r = sm9_z256_point_print(fp, 0, 0, "LBL", &P); }
+	else if (!strcmp(what, "g2")) { SM9_Z256_TWIST_POINT P; sm9_z256_twist_point_mul_generator(&P, s); r = sm9_z256_twist_point_print(fp, 0, 0, "LBL", &P); }
+	else if (key_make(what, s, &id, &k) == 1) {
+		if (!strcmp(what, "smsk")) r = sm9_sign_master_key_print(fp, 0, 0, "LBL", &k.sm);
+		else if (!strcmp(what, "smpk")) r = sm9_sign_master_public_key_print(fp, 0, 0, "LBL", &k.sm);
+		else if (!strcmp(what, "skey")) r = sm9_sign_key_print(fp, 0, 0, "LBL", &k.sk);
+		else if (!strcmp(what, "emsk")) r = sm9_enc_master_key_print(fp, 0, 0, "LBL", &k.em);
+		else if (!strcmp(what, "empk")) r = sm9_enc_master_public_key_print(fp, 0, 0, "LBL", &k.em);
+		else if (!strcmp(what, "ekey")) r = sm9_enc_key_print(fp, 0, 0, "LBL", &k.ek);
+	}
+	n = ftell(fp); rewind(fp); txt = malloc((size_t)n + 1); n = (long)fread(txt, 1, (size_t)n, fp); txt[n] = 0; fclose(fp);
+	{ long i; for (i = 0; i < n; i++) if (txt[i] == '\n' || txt[i] == ' ' || txt[i] == '\t') txt[i] = '_'; }
+	printf("%d %ld %s", r, n, n < 3000 ? txt : "LONG");
+	free(txt); free(id.p);
+}
+
 static void handle(size_t nw, char **w) {
 	if (!strcmp(w[0], "fp") && (nw == 3 || nw == 4)) do_fp(nw, w);
 	else if (!strcmp(w[0], "fp2") && (nw == 3 || nw == 4)) do_fp2(nw, w);
@@ -781,6 +910,20 @@ static void handle(size_t nw, char **w) {
 		sm9_z256_t ks; SM9_Z256_TWIST_POINT Q; sm9_z256_fp12_t g;
 		if (!get_z(w[1], ks)) { printf("ERR"); return; }
 		sm9_z256_twist_point_mul_generator(&Q, ks); sm9_z256_pairing(g, &Q, sm9_z256_generator()); put_fp12(g);
+	}
+	else if (!strcmp(w[0], "prn")) do_prn(nw, w);
+	else if (!strcmp(w[0], "jm") && nw >= 6) do_jm(nw, w);
+	else if (!strcmp(w[0], "z256") && nw >= 3) do_z256(nw, w);
+	else if (!strcmp(w[0], "hexrt") && nw == 3) do_hexrt(nw, w);
+	else if (!strcmp(w[0], "rnd") && nw >= 3) do_rnd(nw, w);
+	else if (!strcmp(w[0], "extract")) do_extract(nw, w);
+	else if (!strcmp(w[0], "misc") && nw == 2) {
+		if (!strcmp(w[1], "consts")) { sm9_z256_t t; uint8_t *o = malloc(32); int i; const uint64_t *q = sm9_256_prime();
+			for (i = 0; i < 4; i++) t[i] = q[i]; put_z(t); printf(" "); q = sm9_z256_order(); for (i = 0; i < 4; i++) t[i] = q[i]; put_z(t); printf(" ");
+			put_g1(sm9_z256_generator()); printf(" "); put_g2(sm9_z256_twist_generator()); free(o); }
+		else if (!strcmp(w[1], "oid")) printf("%s %s %s %d %d %d %d", sm9_oid_name(OID_sm9sign), sm9_oid_name(OID_sm9encrypt), sm9_oid_name(OID_sm9keyagreement),
+			sm9_oid_from_name("sm9") == OID_sm9, sm9_oid_from_name("sm9sign") == OID_sm9sign, sm9_oid_from_name("nosuch") == OID_undef, sm9_exch_step_2B());
+		else printf("ERR bad-op");
 	}
 	else if (!strcmp(w[0], "pred") && nw >= 4) do_pred(nw, w);
 	else if (!strcmp(w[0], "jac") && nw >= 5) do_jac(nw, w);
